@@ -3,6 +3,7 @@ import random
 from props.gossip_common import *
 
 from props import bulk_probe
+from props import consts_common
 ID = "C17"
 COQ_TARGETS = ["Run/Run_Gossip.vo"]
 META = {
@@ -197,6 +198,11 @@ def run(ctx):
            "correspondence": {"harness": "gossip_h world mode (1 node)", "histories": len(okc), "ops": sum(len(c["ops"]) for c in cases),
                               "distribution": op_mix(cases), "disagreements": len(dis), "seed": ctx["seed"]},
            "monitor": {"histories": len(cases), "failures": len(mon_fail)}}
+    # translator half of the tie: the constants of the current source, regenerated; the theorems on them re-checked
+    ccov, cviol = consts_common.regen(ctx, ID, binary)
+    cov["source_constants"] = ccov
+    if cviol and not any(v.get("found_input") for v in violations):
+        violations.append(cviol)
     # bulk synchronisation over the datagram path (hundreds to thousands of entries; monitor only)
     bcov, bv = bulk_probe.run(ctx, ID)
     cov["bulk_pull"] = bcov
